@@ -2188,8 +2188,8 @@ End GenericProofs.
 Lemma model_eq_strip G (m m' : model G) : model_eq G (strip G m) m' = model_eq G m m'.
 Proof. destruct m as [nm de ps rv st es [cols p se mt] vt dv ot ie]. reflexivity. Qed.
 
-Lemma generic_convert_prediction G (m : model G) : m_value_type G m = "PREDICTION" -> generic_convert G m = m.
-Proof. destruct m; cbn; intros ->; reflexivity. Qed.
+Lemma generic_convert_id G (m : model G) : generic_convert G m = m.
+Proof. destruct m; reflexivity. Qed.
 
 Lemma generic_code_roundtrip_lemma G (GOK : engine_ok G) (dumps : pyv -> string) (loads : string -> option pyv) version m :
   loads (dumps (generic_code_dict G version (generic_convert G m))) =
@@ -2198,12 +2198,11 @@ Lemma generic_code_roundtrip_lemma G (GOK : engine_ok G) (dumps : pyv -> string)
   forallb (step_json_ok G) (m_steps G m) = true ->
   forallb (column_json_ok G) (di_columns G (m_datainfo G m)) = true ->
   (forall x, m_iie G m = Some x -> is_json x = true /\ x <> PNone) ->
-  m_value_type G m = "PREDICTION" ->
   generic_roundtrip G dumps loads version m = Some (strip G m).
 Proof.
-  intros L W D B C I V.
+  intros L W D B C I.
   rewrite (generic_image G GOK dumps loads version m L W D).
-  - rewrite (generic_convert_prediction G m V). f_equal. apply model_json_stable; try assumption. intros x Hx. apply (I x Hx).
+  - rewrite (generic_convert_id G m). f_equal. apply model_json_stable; try assumption. intros x Hx. apply (I x Hx).
   - intros x Hx. destruct (I x Hx) as [J N]. rewrite (normalise_fix_lemma x J). exact N.
 Qed.
 
